@@ -460,6 +460,155 @@ def gen_pair(r):
     return sub_line(2, pair_subtable(pairs, f1, f2), props, d, i, infos, model, rand_pos(r, n))
 
 
+import _gposdev as GD
+
+
+def rand_ppem(r, vrs):
+    """(ppem_x, ppem_y): mostly sizes at which a device of these records is live, sometimes 0 / outside"""
+    live = GD.device_sizes(vrs) or [12]
+    def one():
+        k = r.below(8)
+        return 0 if k == 0 else r.range(6, 40) if k == 1 else r.choice(live)
+    x = one()
+    return (x, x) if r.chance(1, 2) else (x, one())
+
+
+def subd_line(ppem, kind, data, props, d, idx, infos, model, ps):
+    inf = ",".join(f"{g}:{gp}:{lp}" for g, gp, lp in infos)
+    return f"gp subd {ppem[0]} {ppem[1]} {kind} {data.hex()} {props} {d} {idx} {inf} {model} | {fmt_pos(ps)}"
+
+
+def gen_single_d(r):
+    n = r.range(1, 6)
+    d = r.choice(DIRS)
+    infos = [(k + 1, BASE, 0) for k in range(n)]
+    idx = r.below(n)
+    fmt = r.choice([1, 2])
+    vf = GD.rand_vf(r)
+    vals = {k + 1: GD.rand_vr(r, vf) for k in range(n) if r.chance(4, 5)} or {n + 3: GD.rand_vr(r, vf)}
+    if fmt == 1:
+        v = vals[min(vals)]; vals = {g: v for g in vals}
+    applies = int(idx + 1 in vals)
+    v = vals.get(idx + 1, GD.EMPTY_VR)
+    ppem = rand_ppem(r, list(vals.values()))
+    model = f"singled {int(ppem[0] != 0)} {int(ppem[1] != 0)} {' '.join(GD.vr_tokens(v, *ppem))} {applies}"
+    return subd_line(ppem, 1, GD.single_subtable(vals, vf, fmt), 0, d, idx, infos, model, rand_pos(r, n))
+
+
+def gen_pair_d(r):
+    n = r.range(2, 7)
+    d = r.choice(DIRS)
+    props = IGNORE_MARKS if r.chance(1, 2) else 0
+    marks = [r.chance(1, 4) for _ in range(n)]
+    infos = [(k + 1, MARK if marks[k] else BASE, 0) for k in range(n)]
+    skip = lambda k: bool(props) and marks[k]
+    i = r.below(n - 1)
+    j = next((k for k in range(i + 1, n) if not skip(k)), None)
+    vf1 = GD.rand_vf(r)
+    vf2 = r.choice([0, 0, GD.rand_vf(r), r.choice(GD.BITS[4:])])
+    allv = []
+    if r.chance(1, 2):
+        pairs = {}
+        for a in range(n):
+            pairs[a + 1] = {b + 1: (GD.rand_vr(r, vf1), GD.rand_vr(r, vf2)) for b in range(n) if r.chance(3, 4)}
+        data = GD.pair_subtable_f1(pairs, vf1, vf2)
+        rec = pairs[i + 1].get((j or 0) + 1) if j is not None else None
+        allv = [v for ps in pairs.values() for pr in ps.values() for v in pr]
+        if rec is not None:          # ttf-parser 0.25 cannot reach a device table from a PairSet (see _gposdev.pairset_visible)
+            rec = tuple(GD.pairset_visible(v) for v in rec)
+    else:
+        nc1, nc2 = r.range(1, 3), r.range(1, 3)
+        cov = [g for g in range(1, n + 1) if r.chance(4, 5)] or [1]
+        cls1 = {g: r.below(nc1) for g in range(1, n + 1)}
+        cls2 = {g: r.below(nc2) for g in range(1, n + 1)}
+        matrix = [[(GD.rand_vr(r, vf1), GD.rand_vr(r, vf2)) for _ in range(nc2)] for _ in range(nc1)]
+        data = GD.pair_subtable_f2(cov, cls1, cls2, matrix, vf1, vf2)
+        rec = matrix[cls1[i + 1]][cls2[j + 1]] if j is not None and (i + 1) in cov else None
+        allv = [v for row in matrix for pr in row for v in pr]
+    applies = int(rec is not None)
+    v1, v2 = rec or (GD.EMPTY_VR, GD.EMPTY_VR)
+    ppem = rand_ppem(r, allv)
+    model = (f"paird {j or 0} {int(ppem[0] != 0)} {int(ppem[1] != 0)} {' '.join(GD.vr_tokens(v1, *ppem))} "
+             f"{' '.join(GD.vr_tokens(v2, *ppem))} {applies}")
+    return subd_line(ppem, 2, data, props, d, i, infos, model, rand_pos(r, n))
+
+
+def subd_lines(r, n):
+    return [r.choice([gen_single_d, gen_pair_d])(r) for _ in range(n)]
+
+
+def expected_subd(ln):
+    """closed form of a `gp subd` request (C07_value_exact_device): the reply the font's values and device deltas demand"""
+    t = ln.split()
+    bar = t.index("|")
+    m, d, idx = t[10:bar], t[7], int(t[8])
+    ps = [parse_pos(x) for x in t[bar + 1:]]
+    if m[-1] == "0":
+        return f"ok 0 {idx} 0 {fmt_pos(ps)}"
+    horiz = d in "lr"
+
+    def apply(k, vt, ux, uy):
+        v = [int(x) for x in vt[:4]]
+        dv = [0 if x == "-" else int(x) for x in vt[4:]]
+        ps[k][2] += v[0] + (dv[0] if ux else 0)
+        ps[k][3] += v[1] + (dv[1] if uy else 0)
+        if horiz: ps[k][0] += v[2] + (dv[2] if ux else 0)
+        else: ps[k][1] -= v[3] + (dv[3] if uy else 0)
+    empty = lambda vt: all(x in ("0", "-") for x in vt[:4]) and all(x == "-" for x in vt[4:])
+    if m[0] == "singled":
+        apply(idx, m[3:11], m[1] == "1", m[2] == "1")
+        nxt = idx + 1
+    else:
+        j, ux, uy = int(m[1]), m[2] == "1", m[3] == "1"
+        v1, v2 = m[4:12], m[12:20]
+        if not empty(v1): apply(idx, v1, ux, uy)
+        if not empty(v2): apply(j, v2, ux, uy)
+        nxt = j if empty(v2) else j + 1
+    return f"ok 1 {nxt} 0 {fmt_pos(ps)}"
+
+
+def device_value_search(ctx, shim, r, n):
+    """adjustments equal the font's values, device tables included: SinglePos / PairPos subtables with every value-format bit
+    through the crate's own Apply impls on a face with ppem; the expected positions are computed here in closed form from the
+    records and from the deltas the Device tables hold for that ppem"""
+    lines = subd_lines(r, n)
+    outs = vlib.run_lines(shim, lines)
+    live = bad = 0
+    for ln, o in zip(lines, outs):
+        e = expected_subd(ln)
+        if "live" in "".join(classify_subd(ln, o)): live += 1
+        if o != e:
+            bad += 1
+            if bad <= 2:
+                a, b = o.split(), e.split()
+                k = next((i for i in range(min(len(a), len(b))) if a[i] != b[i]), 0)
+                ctx.violation(f"value record with device tables (ppem {ln.split()[2]}/{ln.split()[3]}, direction {ln.split()[7]}): the crate "
+                              f"yields {' '.join(a[k:k + 2])} where the record's values and device deltas give {' '.join(b[k:k + 2])} "
+                              f"(reply token {k}; xa:ya:xo:yo:chain:type)",
+                              {"stage": "search", "stream": "device-values", "request": ln, "expected": e, "observed": o})
+    ctx.note_search("device-values", len(lines), live,
+                    rule="SinglePos 1/2 and PairPos 1/2 subtables with random value formats over all eight bits and hinting Device / "
+                         "VariationIndex tables, applied by the crate on a face with (ppem_x, ppem_y) at live sizes / elsewhere / 0, "
+                         "4 directions; expected = placements + their device deltas, advance + its device delta on the run's axis "
+                         "only, computed from the recipe; non-trivial = a device with a non-zero delta at this ppem is in the record")
+
+
+def classify_subd(ln, out):
+    t = ln.split()
+    bar = t.index("|")
+    m = t[10:bar]
+    ks = [m[0], f"{m[0]}:dir:{t[7]}", f"{m[0]}:applied:{m[-1]}", f"{m[0]}:ppem:{'x' if t[2] != '0' else ''}{'y' if t[3] != '0' else ''}" ]
+    vals = m[3:-1] if m[0] == "singled" else m[4:-1]
+    devs = [x for k, x in enumerate(vals) if k % 8 >= 4]
+    ks.append(f"{m[0]}:devices:" + ("none" if all(x == "-" for x in devs) else "all-zero" if all(x in "-0" for x in devs) else "live"))
+    for k, x in enumerate(vals):
+        if k % 8 >= 4 and x not in ("-", "0") and m[-1] == "1":
+            ks.append(f"live:{('xPla', 'yPla', 'xAdv', 'yAdv')[k % 8 - 4]}Device:{'h' if t[7] in 'lr' else 'v'}")
+    if out.startswith("panic") or not out.startswith("ok"):
+        ks.append(out[:30])
+    return ks
+
+
 CHAIN_MAX = 32767
 
 
@@ -1274,6 +1423,339 @@ def d3_hook_seed(ctx, shim, plans):
                        "expected": "glyph order 1,2", "observed": o})
 
 
+# ------------------------------------------------------------------------------------------------
+# kerx: the subtable driver of aat_layout_kerx_table.rs (hook), the tables ttf-parser reads, and the end-to-end oracle
+# "turning kerning off removes the kerning amounts and nothing else" on kern AND kerx fonts
+
+import _kerx as KX
+
+
+def kerx_plan_table(shim):
+    """(kern_mask, requested_kerning, apply_kerx) of the crate's plan on a kerx-only face, per direction x kern feature"""
+    keys = [(d, f) for d in DIRS for f in ("0", "1", "-")]
+    tbl = KX.kerx_table([{"fmt": 0, "h": 1, "c": 0, "v": 0, "pairs": {(1, 2): -10}}])
+    outs = vlib.run_lines(shim, [f"kerx plan {tbl.hex()} {d} {f}" for d, f in keys], nproc=1)
+    res = {}
+    for k, o in zip(keys, outs):
+        t = o.split()
+        if t[0] != "ok":
+            raise vlib.BuildError(f"kerx plan query failed: {k} -> {o}")
+        res[k] = (int(t[1]), int(t[2]), int(t[3]))
+    return res
+
+
+KX_UNIVERSE = list(range(0, 8))
+
+
+def rand_kxinfos(r, n, masks=(1,)):
+    out = []
+    for _ in range(n):
+        g = r.range(1, 6)
+        m = r.choice(masks) if r.chance(5, 6) else 0
+        out.append((g, m, r.choice([1, 1, 1, 1, 0, 2, 3]), int(r.chance(1, 8))))
+    return out
+
+
+def kerx_drv_lines(r, n, plans):
+    lines = []
+    for _ in range(n):
+        gl = r.sample(range(1, 7), r.range(1, 6))
+        subs = KX.rand_subs(r, gl, KX_UNIVERSE, lo=0, hi=3)
+        tbl = KX.kerx_table(subs)
+        d = r.choice(DIRS)
+        f = r.choice(["0", "0", "1", "-"])
+        mask, req, _ = plans[(d, f)]
+        ng = r.range(0, 8)
+        infos = rand_kxinfos(r, ng, masks=(mask or 1, 0xFFFFFFFF, 1))
+        lines.append(f"kerx drv {tbl.hex()} {d} {f} {mask} {req} {KX.subs_token(subs)} {kinfos_token(infos)} | {fmt_pos(rand_pos(r, ng))}")
+    return lines
+
+
+def classify_kxdrv(ln, out):
+    t = ln.split()
+    ks = ["kxdrv", "kxdrv:dir:" + t[3], "kxdrv:requested:" + t[6]]
+    subs = [] if t[7] == "-" else [s.split(":") for s in t[7].split(";")]
+    horiz = t[3] in "lr"
+    live = [s for s in subs if s[0] == "0" and (s[1] == "1") == horiz]
+    ks.append("kxdrv:applicable-subtables:" + str(min(len(live), 3)))
+    simple = [s for s in live if s[3] in ("0", "2", "6")]
+    for s in live: ks.append("kxdrv:applicable-format:" + s[3])
+    if any(s[2] == "1" for s in live): ks.append("kxdrv:has-cross-stream")
+    if t[6] == "0" and t[3] in "rb":
+        ks.append("kxdrv:backward+kerning-off:simple-subtables-" + ("odd" if len(simple) % 2 else "even"))
+    if out.startswith("ok"):
+        gids = out.split()[2]
+        want = ",".join(x.split(":")[0] for x in t[8].split(",")) if t[8] != "-" else "-"
+        ks.append("kxdrv:order-kept" if gids == want or len(set(want.split(","))) < 2 else "kxdrv:order-CHANGED")
+        before = " ".join(t[t.index("|") + 1:])
+        ks.append("kxdrv:positions-" + ("changed" if " ".join(out.split()[3:]) != before else "unchanged"))
+    return ks
+
+
+def kerx_hook_seed(ctx, shim, plans):
+    """the kerx twin of the former D3 witness, on aat_layout_kerx_table::apply itself: RTL, kerning not requested, one
+    (and three) format-0 / 2 / 6 subtables, two glyphs — the driver must hand the buffer back in the order it got it."""
+    r = vlib.Rng(7, "kerx-witness")
+    mask, req, _ = plans[("r", "0")]
+    n = bad = 0
+    for fmts in ((0,), (2,), (6,), (0, 2, 6), (0, 1, 0, 4)):
+        subs = []
+        for f in fmts:
+            s = KX.rand_sub(r, [1, 2, 3], KX_UNIVERSE, simple_only=True, fmts=(f,)) if f in (0, 2, 6) else \
+                {"fmt": f, "pairs": {}}
+            s.update({"v": 0, "h": 1, "c": 0})
+            subs.append(s)
+        tbl = KX.kerx_table(subs)
+        ln = (f"kerx drv {tbl.hex()} r 0 {mask} {req} {KX.subs_token(subs)} 1:{mask or 1}:1:0,2:{mask or 1}:1:0 "
+              f"| 10:0:0:0:0:0 20:0:0:0:0:0")
+        o = vlib.run_lines(shim, [ln], nproc=1)[0]
+        n += 1
+        if not (o.startswith("ok") and o.split()[2] == "1,2" and o.split()[3:] == ["10:0:0:0:0:0", "20:0:0:0:0:0"]):
+            bad += 1
+            if bad <= 1:
+                ctx.violation(f"kerx apply() does not hand the buffer back unchanged when kerning is not requested (backward text, "
+                              f"subtable formats {list(fmts)}): glyph order / positions {' '.join(o.split()[2:])}, expected 1,2 10:.. 20:..",
+                              {"stage": "search", "stream": "kerx-bracket-witness", "request": ln,
+                               "expected": "ok 0 1,2 10:0:0:0:0:0 20:0:0:0:0:0", "observed": o})
+    ctx.note_search("corpus:kerx-bracket-hook", n, n, rule="RTL, kerning not requested, 1-4 kerx subtables (formats 0, 2, 6; idle state "
+                    "machines in between) on the crate's kerx apply(): glyph order and positions must come back unchanged")
+
+
+def kerx_value_search(ctx, shim, r, ntables):
+    """ties tools/props/_kerx.py (the builder the kerx streams use) to what the crate reads: glyphs_kerning of every subtable
+    for every glyph pair = the value the format's rules give"""
+    lines, exp = [], []
+    for _ in range(ntables):
+        gl = r.sample(range(1, 7), r.range(1, 6))
+        subs = KX.rand_subs(r, gl, KX_UNIVERSE)
+        tbl = KX.kerx_table(subs).hex()
+        for n, s in enumerate(subs):
+            for _ in range(6):
+                l, rr = r.choice(KX_UNIVERSE), r.choice(KX_UNIVERSE)
+                if s["pairs"] and r.chance(1, 2):
+                    l, rr = r.choice(sorted(s["pairs"]))
+                lines.append(f"kerx kv {tbl} {n} {l} {rr}")
+                exp.append(f"ok {s['fmt']} {s['pairs'].get((l, rr), 0)}")
+    outs = vlib.run_lines(shim, lines)
+    nz = bad = 0
+    per = {}
+    for ln, o, e in zip(lines, outs, exp):
+        per[e.split()[1]] = per.get(e.split()[1], 0) + 1
+        if e.split()[2] != "0": nz += 1
+        if o != e:
+            bad += 1
+            if bad <= 1:
+                ctx.violation(f"kerx subtable value: the crate reads {o}, the format's rules give {e} (ok <format> <value>)",
+                              {"stage": "search", "stream": "kerx-values", "request": ln, "expected": e, "observed": o})
+    ctx.note_search("kerx-values", len(lines), nz, per_format=per,
+                    rule="random kerx tables (formats 0 / 2 / 6 with class tables and AAT lookups of formats 2 / 4 / 6 / 8, idle "
+                         "format 1 / 4 state machines): glyphs_kerning of the n-th subtable as the crate reads it = the value computed "
+                         "from the recipe; non-trivial = expected value non-zero")
+
+
+KX_ALPHABETS = {
+    "hebr": [0x5D0, 0x5D1, 0x5D2, 0x5D3, 0x5D4, 0x5D5, 0x5DC, 0x5DE, 0x5E9, 0x5EA],
+    "arab": [0x627, 0x628, 0x62A, 0x62F, 0x631, 0x633, 0x644, 0x645, 0x646, 0x647, 0x648, 0x64A],
+    "latn": [0x41, 0x42, 0x56, 0x61, 0x62, 0x63, 0x6F, 0x72, 0x74, 0x76],
+    "pua": [0xE000 + k for k in range(10)],
+}
+KX_COMMON = [0x20, 0x31, 0x32, 0x2E]
+
+
+def kernx_font(r):
+    """a cmap + hmtx (+vmtx) font over one script's letters plus a few common characters, with a `kern` table (OpenType or
+    Apple flavour) or a `kerx` table of 1-3 (sometimes up to 5) subtables"""
+    script = r.choice(["hebr", "hebr", "arab", "arab", "latn", "pua"])
+    letters = r.sample(KX_ALPHABETS[script], r.range(3, 7))
+    chars = letters + r.sample(KX_COMMON, r.range(0, 2))
+    cmap = {c: k + 1 for k, c in enumerate(chars)}
+    ng = len(chars) + 2
+    rec = {"num_glyphs": ng, "cmap": cmap, "advances": [0] + [r.range(300, 900) for _ in range(ng - 1)]}
+    if r.chance(1, 2):
+        rec["vadvances"] = [0] + [r.range(700, 1200) for _ in range(ng - 1)]
+    k = r.below(4)
+    if k == 1:
+        rec["gdef"] = {"classes": {0: 1}}
+    elif k == 2:
+        rec["gdef"] = {"classes": {g: r.choice([1, 1, 2]) for g in range(1, ng) if r.chance(1, 2)}}
+    kind = r.choice(["kerx", "kerx", "kerx", "kern-ot", "kern-aat"])
+    gl = list(range(1, len(chars) + 1))
+    universe = list(range(0, ng + 1))
+    if kind == "kerx":
+        subs = KX.rand_subs(r, r.sample(gl, r.range(2, len(gl))), universe)
+        if r.chance(1, 2):              # make all of them count for horizontal text
+            for s in subs: s["h"], s["v"] = 1, 0
+        rec["tables"] = {"kerx": KX.kerx_table(subs).hex()}
+    else:
+        subs = []
+        for _ in range(r.range(1, 3)):
+            s = KX.rand_sub(r, gl, universe, simple_only=True, fmts=(0,))
+            if kind == "kern-ot": s["v"] = 0
+            elif r.chance(1, 5): s["fmt"], s["pairs"] = 1, {}
+            if r.chance(2, 3): s["h"] = 1
+            subs.append(s)
+        ks = [{"v": s["v"], "h": s["h"], "c": s["c"], "s": int(s["fmt"] == 1),
+               "pairs": [((l << 16) | rr, v) for (l, rr), v in sorted(s["pairs"].items())]} for s in subs]
+        rec["tables"] = {"kern": (kern_table_ot(ks) if kind == "kern-ot" else kern_table_aat(ks)).hex()}
+    return rec, {"kind": kind, "script": script, "chars": chars, "subs": subs}
+
+
+def kernx_text(r, sem):
+    letters = [c for c in sem["chars"] if c not in KX_COMMON]
+    n = r.range(2, 7)
+    return [r.choice(letters) if r.chance(5, 6) else r.choice(sem["chars"]) for _ in range(n)]
+
+
+def kernx_case(r, sem):
+    text = kernx_text(r, sem)
+    d = r.choice(["l", "r", "l", "r", "-", "t", "b"])
+    horiz = d in "lr-"
+    tag = "kern" if horiz else "vkrn"
+    n = len(text)
+    k = r.below(8)
+    if k < 3: feat = (0, 0, None)                       # value, start, end (None = global)
+    elif k < 4: feat = (1, 0, None)
+    elif k < 5: feat = None
+    else:
+        a = r.below(n); b = r.range(a, n)
+        feat = (r.choice([0, 0, 1]), a, b)
+    return text, d, tag, feat
+
+
+def kernx_on(d, feat, n):
+    """the set of input clusters (= text indices) whose glyphs carry the kern mask bit, or None when kerning is not
+    requested at all.  `kern` is on by default in horizontal text and survives in the feature map of a font without GPOS
+    because it is flagged HAS_FALLBACK; `vkrn` is neither: in a font without a GPOS `vkrn` feature its mask is 0 whatever
+    the user asks for, so vertical text is never kerned by kern / kerx tables (as in HarfBuzz) — the vertical subtables
+    are exercised by the kerx-driver / kern-driver correspondence only."""
+    if d not in "lr-":
+        return None
+    if feat is None:
+        return set(range(n))
+    v, a, b = feat
+    if b is None:
+        return set(range(n)) if v else None
+    return {k for k in range(n) if (v if a <= k < b else 1)}
+
+
+def kernx_expected(subs, out, horiz, on):
+    """(dxa, dya, dxo, dyo) per output position: the pair walk of machine_kern over the glyphs in output order (which is the
+    order the kern pass sees: backward buffers are reversed around it), each applicable subtable in turn"""
+    n = len(out)
+    D = [[0, 0, 0, 0] for _ in range(n)]
+    if on is None:
+        return D
+    for s in subs:
+        if s["v"] or bool(s["h"]) != horiz or s["fmt"] in (1, 4):
+            continue
+        i = 0
+        while i < n:
+            if out[i][1] not in on or i + 1 >= n or out[i + 1][1] not in on:
+                i += 1; continue
+            kv = s["pairs"].get((out[i][0], out[i + 1][0]), 0)
+            if kv:
+                k1 = kv >> 1; k2 = kv - k1
+                if horiz:
+                    D[i][0] += k1; D[i + 1][0] += k2; D[i + 1][2] += k2
+                else:
+                    D[i][1] += k1; D[i + 1][1] += k2; D[i + 1][3] += k2
+            i += 1
+    return D
+
+
+def check_kernx(sem, text, d, feat, sx, sp, stats=None):
+    """oracle on one pair of shape() replies (font, same font without kern / kerx): same glyphs in the same order, and the
+    per-glyph difference is exactly the kerning the tables give for the glyphs that carry the kern mask — nothing at all
+    when kerning is off.  Returns (kind, message) or None."""
+    a, b = parse_shape(sx), parse_shape(sp)
+    if a is None or b is None or len(a) != len(text) or len(b) != len(text):
+        return ("fail", f"shape() failed on a kern / kerx font: {sx[:80]} / {sp[:80]}")
+    on = kernx_on(d, feat, len(text))
+    off = on is None or not on
+    if [(x[0], x[1]) for x in a] != [(x[0], x[1]) for x in b]:
+        return ("order", f"{sem['kind']} font, direction {d}, {'kerning off' if off else 'kerning on'}: glyph order differs from the "
+                         f"same text on the font without the table: clusters {[x[1] for x in a]} vs {[x[1] for x in b]}")
+    cross = any(s["c"] and not s["v"] for s in sem["subs"])
+    if cross and not off:
+        if stats is not None: stats["cross_stream_order_only"] += 1
+        return None
+    exp = kernx_expected(sem["subs"], [(x[0], x[1]) for x in b], d in "lr-", on)
+    got = [[x[2] - y[2], x[3] - y[3], x[4] - y[4], x[5] - y[5]] for x, y in zip(a, b)]
+    if stats is not None and any(any(v) for v in exp):
+        stats["with_nonzero_delta"] += 1
+    if got != exp:
+        k = next(i for i in range(len(exp)) if got[i] != exp[i])
+        return ("delta", f"{sem['kind']} font, direction {d}, {'kerning off' if off else 'kerning on'}: output glyph {k} (gid {a[k][0]}, "
+                         f"cluster {a[k][1]}) differs from the font without the table by {got[k]} but the tables give {exp[k]} "
+                         f"(dxa, dya, dxo, dyo)")
+    return None
+
+
+def kernx_request(fid, d, tag, feat, text):
+    if feat is None: feats = "-"
+    else:
+        v, a, b = feat
+        feats = f"{TAG(tag)}:{v}:{a if b is not None else 0}:{b if b is not None else 4294967295}"
+    t = ",".join(f"{c:x}:{i}" for i, c in enumerate(text))
+    return f"shape {fid} {d} - - 0 0 {feats} - - {t}"
+
+
+def kernx_search(ctx, shim, r, nfonts, ntexts):
+    groups, meta = [], []
+    for f in range(nfonts):
+        rec, sem = kernx_font(r)
+        plain = {k: v for k, v in rec.items() if k != "tables"}
+        lines = [f"font K{f} {fontbuild.hexfont(rec)}", f"font L{f} {fontbuild.hexfont(plain)}"]
+        ms = []
+        for _ in range(ntexts):
+            text, d, tag, feat = kernx_case(r, sem)
+            lines += [kernx_request(f"K{f}", d, tag, feat, text), kernx_request(f"L{f}", d, tag, feat, text)]
+            ms.append((text, d, tag, feat))
+        lines += [f"fontdrop K{f}", f"fontdrop L{f}"]
+        groups.append(lines); meta.append((rec, sem, ms))
+    outs = vlib.run_groups(shim, groups, timeout=900)
+    stats = {"shapes": 0, "with_nonzero_delta": 0, "kerning_off": 0, "kerning_off_backward_buffer": 0, "ranged": 0,
+             "cross_stream_order_only": 0, "per_kind": {}, "per_script": {}, "per_dir": {}}
+    nbad = 0
+    for (rec, sem, ms), o, g in zip(meta, outs, groups):
+        if o[0] != "ok" or o[1] != "ok":
+            ctx.violation(f"generated {sem['kind']} font rejected: {o[0]} {o[1]}", {"stage": "search", "stream": "kernx-shape",
+                          "font_line": g[0][:200]}); continue
+        for t, (text, d, tag, feat) in enumerate(ms):
+            sx, sp = o[2 + 2 * t], o[3 + 2 * t]
+            stats["shapes"] += 1
+            for key, v in (("per_kind", sem["kind"]), ("per_script", sem["script"]), ("per_dir", d)):
+                stats[key][v] = stats[key].get(v, 0) + 1
+            on = kernx_on(d, feat, len(text))
+            if on is None or not on:
+                stats["kerning_off"] += 1
+                b = parse_shape(sp)
+                if b and len(b) > 1 and d in "lr-" and b[0][1] > b[-1][1] or (b and d == "l" and sem["script"] in ("hebr", "arab")):
+                    stats["kerning_off_backward_buffer"] += 1
+            if feat is not None and feat[2] is not None: stats["ranged"] += 1
+            res = check_kernx(sem, text, d, feat, sx, sp, stats)
+            if res is None:
+                continue
+            nbad += 1
+            if nbad <= 2:
+                ctx.violation(res[1], {"stage": "search", "stream": "kernx-shape", "font_line": g[0], "plain_font_line": g[1],
+                                       "request": g[2 + 2 * t], "plain_request": g[3 + 2 * t], "observed": sx, "plain": sp,
+                                       "text": text, "dir": d, "feature_tag": tag, "feature": feat, "kind": res[0],
+                                       "sem": {"kind": sem["kind"], "script": sem["script"], "chars": sem["chars"],
+                                               "subs": [{**s, "pairs": [[l, rr, v] for (l, rr), v in sorted(s["pairs"].items())],
+                                                         "cls": None} for s in sem["subs"]]},
+                                       "recipe": rec})
+    ctx.note_search("kernx-shape", stats["shapes"], stats["with_nonzero_delta"] + stats["kerning_off"], detail=stats,
+                    rule="generated cmap+hmtx(+vmtx, +GDEF without marks) fonts over Hebrew / Arabic / Latin / private-use letters with a "
+                         "`kerx` table (1-5 subtables of formats 0 / 2 / 6, idle format 1 / 4 state machines, horizontal / vertical / "
+                         "cross-stream / variation) or a `kern` table (OpenType or Apple flavour) x texts x directions l / r / guessed "
+                         "/ t / b x kern (vkrn) feature absent / 0 / 1 / ranged 0 / ranged 1, each shaped with the font and with the "
+                         "same font without the table; oracle: same glyphs and clusters in the same order, and the per-glyph "
+                         "difference equals the kerning of the pairs whose two glyphs carry the kern mask (kern>>1 / rest split, "
+                         "pairs in visual order) — nothing when kerning is off; fonts with a cross-stream subtable are "
+                         "compared for order only when kerning is on; non-trivial = expected delta non-zero, or kerning off")
+
+
 def seed_text(t):
     """{"glyphs":[..]} | {"repeat":[[gid,count],...]} -> glyph list"""
     if "glyphs" in t:
@@ -1345,7 +1827,9 @@ def run(ctx):
         "positions are modelled over unbounded Int; every i32 operation in the modelled code is +, -, negation or "
         "assignment, so the release build holds wrap32 of the model value (the driver prints wrap32; streams include "
         "values next to the i32 limits); attach_chain is cast to i16 where Rust casts (exact since the i16 guard)",
-        "device / variation deltas, kern state machines (format 1) and kerx are outside the model; the GPOS matcher "
+        "device / variation deltas and the kern / kerx state machines (kern format 1, kerx formats 1 / 4) are outside the model "
+        "(the drivers take them as an order-preserving parameter); kerx formats 0 / 2 / 6 are modelled as machine_kern over the "
+        "values ttf-parser reads (kerx-values ties the byte-level builder to that reading); the GPOS matcher "
         "(which glyph pair a lookup selects) is the C06 interpreter — here the selected indices are inputs",
     ]
     ctx.regen()
@@ -1362,15 +1846,25 @@ def run(ctx):
                    classify=classify_prop, canon=canon)
     ctx.correspond("gpos-apply", lines=sub_lines(ctx.rng("sub"), ctx.budget(6000, 600000)),
                    classify=classify_sub, canon=canon)
+    ctx.correspond("gpos-apply-device", lines=subd_lines(ctx.rng("subd"), ctx.budget(4000, 150000)),
+                   classify=classify_subd, canon=canon)
     ctx.correspond("kern-machine", lines=mk_lines(ctx.rng("mk"), ctx.budget(4000, 400000)),
                    classify=classify_mk, canon=canon)
     ctx.correspond("kern-fmt0", lines=f0_lines(ctx.rng("f0"), ctx.budget(2000, 100000)), canon=canon)
     ctx.correspond("kern-driver", lines=drv_lines(ctx.rng("drv"), ctx.budget(3000, 300000), plans),
                    classify=classify_drv, canon=canon)
+    kplans = kerx_plan_table(shim)
+    ctx.cov["kerx_plan"] = {f"{d}/{f}": v for (d, f), v in kplans.items()}
+    ctx.correspond("kerx-driver", lines=kerx_drv_lines(ctx.rng("kxdrv"), ctx.budget(3000, 150000), kplans),
+                   classify=classify_kxdrv, canon=canon)
     ctx.correspond("gpos-lookup", groups=pos_groups(shim, ctx.rng("pos"), ctx.budget(150, 6000), ctx.budget(12, 16)),
                    classify=classify_pos, canon=canon, only=lambda ln: ln.startswith("gp pos"))
     corpus_seeds(ctx, shim)
     d3_hook_seed(ctx, shim, plans)
+    kerx_hook_seed(ctx, shim, kplans)
+    device_value_search(ctx, shim, ctx.rng("devval"), ctx.budget(3000, 200000))
+    kerx_value_search(ctx, shim, ctx.rng("kxval"), ctx.budget(300, 20000))
+    kernx_search(ctx, shim, ctx.rng("kernx"), ctx.budget(250, 8000), ctx.budget(10, 12))
     mark_chain_search(ctx, shim, ctx.rng("markchain"), ctx.budget(3000, 200000))
     attach_search(ctx, shim, ctx.rng("attach"), ctx.budget(150, 10000), ctx.budget(8, 12))
     target_search(ctx, shim, ctx.rng("target"), ctx.budget(240, 12000), ctx.budget(10, 12))
@@ -1413,6 +1907,18 @@ def replay(ctx, rp):
         bad = [w for w, _, _ in run_seed(shim, json.load(open(rp["seed_file"]))) if w]
         for w in bad: print(w)
         return 1 if bad else 0
+    if stream == "kernx-shape" and "sem" in rp:
+        o = vlib.run_groups(shim, [[rp["font_line"], rp["plain_font_line"], rp["request"], rp["plain_request"]]], nproc=1)[0]
+        sem = dict(rp["sem"])
+        sem["subs"] = [{**x, "pairs": {(l, rr): v for l, rr, v in x["pairs"]}} for x in sem["subs"]]
+        feat = tuple(rp["feature"]) if rp["feature"] is not None else None
+        res = check_kernx(sem, rp["text"], rp["dir"], feat, o[2], o[3])
+        print("font :", o[2]); print("plain:", o[3]); print("oracle:", res[1] if res else "difference equals the tables' kerning")
+        return 1 if res else 0
+    if stream in ("kerx-values", "kerx-bracket-witness", "device-values"):
+        o = vlib.run_lines(shim, [rp["request"]], nproc=1)[0]
+        print("impl    :", o); print("expected:", rp["expected"])
+        return 0 if o == rp["expected"] else 1
     if stream == "kern-bracket-witness":
         o = vlib.run_lines(shim, [rp["request"]], nproc=1)[0]
         print("impl:", o)
